@@ -19,17 +19,19 @@ Module W := PriorityQueueWrapGen.
 Definition I (cmp : cmpf) : W.heap_iface := W.mk_heap_iface (list Z)
   (fun _ => ([], tt))                                            (* Clear() *)
   (fun h => zlen h =? 0)                                         (* Empty() *)
+  (fun _ d => (Heap.heapify_from cmp d (length d / 2 + 1), false)) (* FromJSON(data): placeholder codec (bytes = the element list) *)
   (fun h => opt_pair (hd_error h))                               (* Peek() *)
   (fun h => let '(h', r) := Heap.pop cmp h in (h', opt_pair r))  (* Pop() *)
   (fun h vs => (Heap.push cmp vs h, tt))                         (* Push(values...) *)
   (fun h => zlen h)                                              (* Size() *)
+  (fun h => (h, false))                                          (* ToJSON(): placeholder codec *)
   (fun h => Heap.values cmp h).                                  (* Values() *)
 
 Module Names.
 Import Coq.Strings.String.
 (* OBLIGATION *)
 Theorem translated_functions :
-  W.translated = ["Clear"; "Dequeue"; "Empty"; "Enqueue"; "Peek"; "Size"; "Values"]%string
+  W.translated = ["Clear"; "Dequeue"; "Empty"; "Enqueue"; "FromJSON"; "MarshalJSON"; "Peek"; "Size"; "ToJSON"; "UnmarshalJSON"; "Values"]%string
   /\ W.skipped = ["New"; "NewWith"; "String"]%string /\ W.not_selected = [].
 Proof. repeat split. Qed.
 Print Assumptions translated_functions.
